@@ -21,21 +21,23 @@ AlgOf(r) == LET k == r.consumer  cs == r.c IN
   ELSE IF k \in {"limited", "fileunnamed"} THEN AlgLimited(cs, r.limit)
   ELSE AlgCopyFixed(cs)
 
+\* the bytes the descriptor describes, when the stream has that many (else nothing a consumer returns can equal them)
+Described(cs) == IF cs.size >= 0 /\ cs.size <= Len(Stream(cs)) THEN SubSeq(Stream(cs), 1, cs.size) ELSE <<-1>>
 IsConc(r) == "concurrent" \in DOMAIN r /\ r.concurrent
 Checks(r) ==
   LET cs == r.c  k == r.consumer IN
   IF IsReader(k) THEN
     {<<"ReaderOnlyMatching", r.ok => (~MustFail(cs) /\ ~Trailing(cs))>>,
-     <<"ReaderReturnsDescribedBytes", r.ok => r.bytes = SubSeq(Stream(cs), 1, cs.size)>>}
+     <<"ReaderReturnsDescribedBytes", r.ok => r.bytes = Described(cs)>>}
   ELSE
     {<<"PushMustFail", MustFail(cs) => ~r.ok>>,
      <<"FailedPushInvisible", ~r.ok => (~r.exists /\ ~r.fetchok)>>,
      <<"FailedPushLeavesNoBlobFile", ~r.ok => r.newblobs = 0>>,
-     <<"VisibleMatchesDescriptor", r.fetchok => (~MustFail(cs) /\ r.bytes = SubSeq(Stream(cs), 1, cs.size))>>,
+     <<"VisibleMatchesDescriptor", r.fetchok => (~MustFail(cs) /\ r.bytes = Described(cs))>>,
      <<"ExistsMeansFetchable", r.exists => r.fetchok>>,
      \* the same through the plain descriptor (no title), as a manifest's layer entry names the content
      <<"FailedPushInvisiblePlain", (~r.ok /\ ~IsConc(r)) => (~r.existsp /\ ~r.fetchpok)>>,
-     <<"VisibleMatchesDescriptorPlain", r.fetchpok => (~MustFail(cs) /\ r.bytesp = SubSeq(Stream(cs), 1, cs.size))>>,
+     <<"VisibleMatchesDescriptorPlain", r.fetchpok => (~MustFail(cs) /\ r.bytesp = Described(cs))>>,
      <<"ConcurrentNoHang", ~("hang" \in DOMAIN r /\ r.hang)>>,
      <<"BlobFilesComplete", r.badblobfiles = 0>>}
 
@@ -48,7 +50,8 @@ Step ==
   /\ done' = FALSE
   /\ viol' = viol \cup {[t |-> Rec.t, i |-> Rec.i, inv |-> k[1]] : k \in {k \in Checks(Rec) : ~k[2]}}
                \cup (IF Sanity(Rec) THEN {} ELSE {[t |-> Rec.t, i |-> Rec.i, inv |-> "GoodAccepted"]})
-  /\ nonconf' = IF IsConc(Rec) \/ Rec.ok = (AlgOf(Rec).res = "ok") THEN nonconf
+  \* (the transcribed algorithms assume the end of the stream comes in a Read call of its own)
+  /\ nonconf' = IF IsConc(Rec) \/ Rec.together \/ Rec.ok = (AlgOf(Rec).res = "ok") THEN nonconf
                 ELSE nonconf \cup {[t |-> Rec.t, i |-> Rec.i, inv |-> "L2"]}
 Finish ==
   /\ l = Len(Trace) + 1 /\ ~done
